@@ -19,6 +19,7 @@ Not decided: bitwise equality of batched linear algebra across D; execution unde
 from __future__ import annotations
 
 import ast
+import itertools
 
 import sympy as sp
 
@@ -475,9 +476,9 @@ def _ite_leaves(t):
 
 def axis_names(ctx):
   m = ctx.model
-  for q in ('_pmap_compute_preconditioners', '_pmap_quantized_compute_preconditioners'):
+  for q, metrics_on in itertools.product(('_pmap_compute_preconditioners', '_pmap_quantized_compute_preconditioners'), (True, False)):
     fi = m.func(MOD, F + '.' + q)
-    v = dict(scheduled=False, steps1=False, reuse=True, metrics=True)
+    v = dict(scheduled=False, steps1=False, reuse=True, metrics=metrics_on)
     d = D.make_decider(v, {'batch_axis_name': True})
     ev = evaluator(m, opaque=D.OPAQUE, decide=d, summaries={'efficient_cond': econd_summary})
     r = ev.run(fi)
@@ -522,6 +523,24 @@ def axis_names(ctx):
           okg = True
     ctx.ob('C13.P4', fi.short, 'roots all_gather-ed and unbatched', okg, 'per-device roots must be all_gather-ed over the axis and unbatched back to a flat list', ctx.loc(fi),
            sample='unbatch(all_gather(roots, axis))')
+    # everything that is dealt back per statistic - roots AND the errors that gate them - comes from an all_gather: a
+    # value that is only broadcast locally makes each replica judge all roots by the errors of its own slice
+    def _gathered(t):
+      while t.op in ('attr', 'sub', 'leaf', 'elem') or (t.op == 'tmap' and False):
+        t = t.args[0]
+      return is_ext_call(t, 'jax.lax.all_gather')
+    bad = []
+    n_unb = 0
+    for c in cons:
+      for fld in ('preconditioners', 'training_metrics'):
+        for x in walk(c.args.get(fld, NONE)):
+          if fn_name(x) == 'unbatch' and x.args[1]:
+            n_unb += 1
+            if not _gathered(x.args[1][0]):
+              bad.append(show(x.args[1][0], maxdepth=3)[:80])
+    ctx.ob('C13.P4', fi.short, f'every unbatched value was all_gather-ed [metrics={metrics_on}]', n_unb > 0 and not bad,
+           f'values dealt back to the statistics without an all_gather over the replica axis: {list(dict.fromkeys(bad))[:3]}', ctx.loc(fi),
+           sample='unbatch(all_gather(x, axis)) for roots and errors')
   # single device
   fi = m.func(MOD, F + '._pmap_compute_preconditioners')
   v = dict(scheduled=False, steps1=False, reuse=True, metrics=True)
